@@ -122,6 +122,8 @@ def rotation_stream(ctx, n):
             lam = Fraction(rng.choice([1, 1, 2, 3, -1, -2, Fraction(1, 2)]))
             w = Fraction(rng.choice([1, 1, 2, -1, -3]))
             axis_h = [float(t * lam * w) for t in ax] + [float(w)]          # homogeneous axis point (finite)
+            if k % 7 == 1:
+                axis_h = [float(t * lam) for t in ax] + [0.0]               # the axis given as a direction (point at infinity)
             reqs.append(f"rot3 {q(c)} {q(s)} {vec_tok([u * (1 if lam * 1 > 0 else -1) for u in unit])}")
             todo.append(("rot3", c, s, ang, c2, s2, ang2, axis_h, [u * (1 if lam > 0 else -1) for u in unit]))
     answers = run_driver(reqs)
